@@ -24,18 +24,26 @@ type fTok struct {
 	Cond  string
 	Pos   token.Pos
 	Slice bool // FIELD of a slice type (variable length payload written in one call)
+	// CountLen is the length name as spelled where the transfer happens (inside an inlined helper the parameter name);
+	// the byte-count rule looks for it next to the call
+	CountLen string
+	Whole    bool // LOOP: the bound is len(X) / range X of a container, so every element is visited
 }
 
 type fmtSide struct {
 	W        *World
 	Decl     *ast.FuncDecl
 	Writer   bool
-	RecvName string            // receiver identifier (idx / ix)
-	IOParam  types.Object      // the io.Writer / io.Reader parameter
-	Helper   types.Object      // local closure wrapping binary.Write / binary.Read
-	HelperFn *ast.FuncLit      //
-	Makes    map[types.Object]string // reader: buf -> length expression of make([]byte, n)
-	Defs     map[types.Object]ast.Expr // x := expr (single definition)
+	Sites    []token.Pos                   // call sites (in Decl) of inlined package functions
+	RecvName string                        // receiver identifier (idx / ix)
+	IOParam  types.Object                  // the io.Writer / io.Reader parameter
+	Helper   types.Object                  // local closure wrapping binary.Write / binary.Read
+	HelperFn *ast.FuncLit                  //
+	Makes    map[types.Object]string       // reader: buf -> length expression of make([]byte, n)
+	Defs     map[types.Object]ast.Expr     // x := expr (single definition)
+	Closures map[types.Object]*ast.FuncLit // local closures other than the codec helper (inlined at their call sites)
+	Roots    []ast.Node                    // bodies that belong to this side (the declaration and every inlined function)
+	depth    int
 	Toks     []*fTok
 	Calls    []*ast.CallExpr // every stream call (for FMT4 / FMT6)
 	Problems []string
@@ -89,7 +97,8 @@ func widthOf(t types.Type) (string, bool) {
 
 // extractFmt builds the token tree of a WriteTo / ReadFrom declaration.
 func extractFmt(w *World, decl *ast.FuncDecl, writer bool) *fmtSide {
-	s := &fmtSide{W: w, Decl: decl, Writer: writer, Makes: map[types.Object]string{}, Defs: map[types.Object]ast.Expr{}}
+	s := &fmtSide{W: w, Decl: decl, Writer: writer, Makes: map[types.Object]string{}, Defs: map[types.Object]ast.Expr{}, Closures: map[types.Object]*ast.FuncLit{}}
+	s.Roots = []ast.Node{decl.Body}
 	info := w.Info
 	if decl.Recv != nil && len(decl.Recv.List) > 0 && len(decl.Recv.List[0].Names) > 0 {
 		s.RecvName = decl.Recv.List[0].Names[0].Name
@@ -135,6 +144,8 @@ func extractFmt(w *World, decl *ast.FuncDecl, writer bool) *fmtSide {
 			if uses && s.Helper == nil {
 				s.Helper = info.Defs[id]
 				s.HelperFn = rhs
+			} else if obj := info.Defs[id]; obj != nil {
+				s.Closures[obj] = rhs
 			}
 		case *ast.CallExpr:
 			if fn, ok := rhs.Fun.(*ast.Ident); ok && fn.Name == "make" && len(rhs.Args) >= 2 {
@@ -164,6 +175,73 @@ func calleeOfExpr(info *types.Info, c *ast.CallExpr) string {
 	}
 	return ""
 }
+
+// resolveLocal replaces a local identifier by its single defining expression (n := idx.dim) and a local slice made with a
+// known length by that length (for range over `vec := make([]T, n)` the bound is n).
+func (s *fmtSide) resolveBound(e ast.Expr) string {
+	info := s.W.Info
+	e = stripConv(info, e)
+	for i := 0; i < 4; i++ {
+		id, ok := e.(*ast.Ident)
+		if !ok {
+			break
+		}
+		obj := info.Uses[id]
+		if obj == nil {
+			obj = info.Defs[id]
+		}
+		def, ok := s.Defs[obj]
+		if !ok {
+			break
+		}
+		d := stripConv(info, def)
+		// only pure selector / identifier / len() definitions are substituted
+		switch x := d.(type) {
+		case *ast.SelectorExpr, *ast.Ident:
+			e = d
+			continue
+		case *ast.CallExpr:
+			if fn, ok := x.Fun.(*ast.Ident); ok && fn.Name == "len" {
+				e = d
+				continue
+			}
+		}
+		break
+	}
+	return exprStr(e)
+}
+
+// rangeBound: the bound of `for … := range X`.
+func (s *fmtSide) rangeBound(x ast.Expr) string {
+	info := s.W.Info
+	if id, ok := x.(*ast.Ident); ok {
+		obj := info.Uses[id]
+		if l, ok := s.Makes[obj]; ok {
+			// a local slice made with length l: ranging over it runs l times
+			if e, err := parseExprCached(l); err == nil {
+				_ = e
+			}
+			return s.resolveBoundStr(l)
+		}
+	}
+	return exprStr(x)
+}
+
+func (s *fmtSide) resolveBoundStr(l string) string {
+	// l is the printed length expression of a make(); resolve it when it is a plain local identifier
+	for obj, def := range s.Defs {
+		if obj.Name() == l {
+			d := stripConv(s.W.Info, def)
+			switch d.(type) {
+			case *ast.SelectorExpr, *ast.Ident:
+				return exprStr(d)
+			}
+		}
+	}
+	return l
+}
+
+func parseExprCached(string) (ast.Expr, error) { return nil, nil }
 
 func (s *fmtSide) block(list []ast.Stmt) []*fTok {
 	var out []*fTok
@@ -218,25 +296,44 @@ func (s *fmtSide) stmt(st ast.Stmt) []*fTok {
 			return out
 		}
 		bound := "?"
+		whole := false
 		if be, ok := x.Cond.(*ast.BinaryExpr); ok && (be.Op == token.LSS || be.Op == token.LEQ) {
-			bound = exprStr(stripConv(s.W.Info, be.Y))
+			bound = s.resolveBound(be.Y)
+			// i < len(x) over a local slice made with a known length
+			if c, ok := stripConv(s.W.Info, be.Y).(*ast.CallExpr); ok {
+				if fn, ok := c.Fun.(*ast.Ident); ok && fn.Name == "len" && len(c.Args) == 1 {
+					if s.Writer {
+						// the writer names a length by the container whose len() it emitted
+						bound = exprStr(c.Args[0])
+						whole = true
+					} else {
+						bound = s.rangeBound(c.Args[0])
+					}
+				}
+			}
 			if be.Op == token.LEQ {
 				bound += "+1"
+				whole = false
 			}
 			// the induction variable must start at 0 and step by 1
 			if !forFromZero(x) {
 				bound = "NONCANONICAL(" + exprStr(x.Cond) + ")"
+				whole = false
 			}
 		} else if x.Cond != nil {
 			bound = "NONCANONICAL(" + exprStr(x.Cond) + ")"
 		}
-		return append(out, &fTok{Kind: "LOOP", Len: bound, Body: body, Pos: x.Pos()})
+		return append(out, &fTok{Kind: "LOOP", Len: bound, Body: body, Pos: x.Pos(), Whole: whole})
 	case *ast.RangeStmt:
 		body := s.block(x.Body.List)
 		if len(body) == 0 {
 			return nil
 		}
-		return []*fTok{{Kind: "LOOP", Len: exprStr(x.X), Body: body, Pos: x.Pos()}}
+		b := exprStr(x.X)
+		if !s.Writer {
+			b = s.rangeBound(x.X)
+		}
+		return []*fTok{{Kind: "LOOP", Len: b, Body: body, Pos: x.Pos(), Whole: true}}
 	case *ast.SwitchStmt, *ast.TypeSwitchStmt, *ast.SelectStmt:
 		var inner []*fTok
 		ast.Inspect(st, func(n ast.Node) bool {
@@ -311,7 +408,23 @@ func (s *fmtSide) call(c *ast.CallExpr) []*fTok {
 		s.Calls = append(s.Calls, c)
 		return []*fTok{s.field(c.Args[0], c.Pos())}
 	}
+	// a local closure that wraps stream operations (writeRaw, readBlock, writeNode): inline its tokens
+	if id, ok := c.Fun.(*ast.Ident); ok {
+		if lit, ok := s.Closures[info.Uses[id]]; ok && s.depth < 3 {
+			s.depth++
+			toks := s.block(lit.Body.List)
+			s.depth--
+			if len(toks) > 0 {
+				substParams(info, toks, lit.Type.Params, c.Args)
+				return toks
+			}
+		}
+	}
 	name := calleeOfExpr(info, c)
+	// a package function / method that receives the stream (or the codec helper): inline its tokens
+	if toks := s.inlineFunc(c); toks != nil {
+		return toks
+	}
 	switch {
 	case s.Writer && name == "encoding/binary.Write" && len(c.Args) == 3:
 		s.Calls = append(s.Calls, c)
@@ -322,10 +435,18 @@ func (s *fmtSide) call(c *ast.CallExpr) []*fTok {
 	case !s.Writer && name == "io.ReadFull" && len(c.Args) == 2:
 		s.Calls = append(s.Calls, c)
 		t := &fTok{Kind: "RAW", Arg: exprStr(c.Args[1]), Pos: c.Pos(), Len: "?"}
-		if id, ok := c.Args[1].(*ast.Ident); ok {
+		buf := c.Args[1]
+		if se, ok := buf.(*ast.SliceExpr); ok && se.Low == nil && se.High == nil {
+			buf = se.X
+			t.Arg = exprStr(buf)
+		}
+		if id, ok := buf.(*ast.Ident); ok {
 			if l, ok := s.Makes[info.Uses[id]]; ok {
-				t.Len = l
+				t.Len = s.resolveBoundStr(l)
 			}
+		}
+		if at, ok := info.TypeOf(buf).Underlying().(*types.Array); ok {
+			t.Len = fmt.Sprint(at.Len())
 		}
 		return []*fTok{t}
 	}
@@ -355,6 +476,154 @@ func (s *fmtSide) call(c *ast.CallExpr) []*fTok {
 		}
 	}
 	return nil
+}
+
+// substParams rewrites token lengths / arguments that name a parameter of an inlined function to the argument expression.
+func substParams(info *types.Info, toks []*fTok, params *ast.FieldList, args []ast.Expr) {
+	m := map[string]string{}  // parameter -> argument expression
+	ml := map[string]string{} // parameter -> length name of the argument (x[:] of an array is its constant length)
+	i := 0
+	if params != nil {
+		for _, f := range params.List {
+			for _, n := range f.Names {
+				if i < len(args) {
+					a := args[i]
+					m[n.Name] = exprStr(a)
+					ml[n.Name] = exprStr(a)
+					if se, ok := a.(*ast.SliceExpr); ok && se.Low == nil && se.High == nil {
+						ml[n.Name] = exprStr(se.X)
+						if t := info.TypeOf(se.X); t != nil {
+							if at, ok := t.Underlying().(*types.Array); ok {
+								ml[n.Name] = fmt.Sprint(at.Len())
+							}
+						}
+					}
+				}
+				i++
+			}
+		}
+	}
+	var rec func(ts []*fTok)
+	rec = func(ts []*fTok) {
+		for _, t := range ts {
+			if v, ok := ml[t.Len]; ok {
+				if t.CountLen == "" {
+					t.CountLen = t.Len
+				}
+				t.Len = v
+			}
+			if v, ok := m[t.Arg]; ok {
+				t.Arg = v
+			}
+			if strings.HasPrefix(t.Len, "len(") && strings.HasSuffix(t.Len, ")") {
+				if v, ok := ml[t.Len[4:len(t.Len)-1]]; ok {
+					if t.CountLen == "" {
+						t.CountLen = t.Len
+					}
+					t.Len = "len(" + v + ")"
+				}
+			}
+			rec(t.Body)
+			rec(t.Else)
+		}
+	}
+	rec(toks)
+}
+
+// inlineFunc expands a call to a comet function or method that is handed the stream parameter or the codec helper.
+func (s *fmtSide) inlineFunc(c *ast.CallExpr) []*fTok {
+	info := s.W.Info
+	if s.depth >= 3 {
+		return nil
+	}
+	var obj *types.Func
+	switch f := c.Fun.(type) {
+	case *ast.Ident:
+		obj, _ = info.Uses[f].(*types.Func)
+	case *ast.SelectorExpr:
+		obj, _ = info.Uses[f.Sel].(*types.Func)
+	}
+	if obj == nil || obj.Pkg() != s.W.Types {
+		return nil
+	}
+	if obj.Name() == "WriteTo" || obj.Name() == "ReadFrom" || obj.Name() == "Flush" {
+		return nil
+	}
+	passes := -1
+	helperArg := -1
+	for i, a := range c.Args {
+		if id, ok := a.(*ast.Ident); ok {
+			if s.IOParam != nil && info.Uses[id] == s.IOParam {
+				passes = i
+			}
+			if s.Helper != nil && info.Uses[id] == s.Helper {
+				helperArg = i
+			}
+		}
+	}
+	if passes < 0 && helperArg < 0 {
+		return nil
+	}
+	sf := s.W.Prog.FuncValue(obj)
+	if sf == nil {
+		return nil
+	}
+	decl := s.W.Decl(s.W.Name(sf))
+	if decl == nil || decl.Body == nil {
+		return nil
+	}
+	sub := &fmtSide{W: s.W, Decl: decl, Writer: s.Writer, Makes: map[types.Object]string{}, Defs: map[types.Object]ast.Expr{}, Closures: map[types.Object]*ast.FuncLit{}, depth: s.depth + 1}
+	// bind the callee's parameters
+	i := 0
+	for _, f := range decl.Type.Params.List {
+		for _, n := range f.Names {
+			if i == passes {
+				sub.IOParam = info.Defs[n]
+			}
+			if i == helperArg {
+				sub.Helper = info.Defs[n]
+			}
+			i++
+		}
+	}
+	if decl.Recv != nil && len(decl.Recv.List) > 0 && len(decl.Recv.List[0].Names) > 0 {
+		sub.RecvName = decl.Recv.List[0].Names[0].Name
+	}
+	// local makes / defs of the callee
+	ast.Inspect(decl.Body, func(n ast.Node) bool {
+		as, ok := n.(*ast.AssignStmt)
+		if !ok || len(as.Lhs) != 1 || len(as.Rhs) != 1 {
+			return true
+		}
+		id, ok := as.Lhs[0].(*ast.Ident)
+		if !ok {
+			return true
+		}
+		if as.Tok == token.DEFINE {
+			if o := info.Defs[id]; o != nil {
+				sub.Defs[o] = as.Rhs[0]
+			}
+		}
+		if call, ok := as.Rhs[0].(*ast.CallExpr); ok {
+			if fn, ok := call.Fun.(*ast.Ident); ok && fn.Name == "make" && len(call.Args) >= 2 {
+				if o := info.Defs[id]; o != nil {
+					sub.Makes[o] = exprStr(stripConv(info, call.Args[1]))
+				}
+			}
+		}
+		return true
+	})
+	toks := sub.block(decl.Body.List)
+	if len(toks) == 0 {
+		return nil
+	}
+	substParams(info, toks, decl.Type.Params, c.Args)
+	s.Calls = append(s.Calls, sub.Calls...)
+	s.Problems = append(s.Problems, sub.Problems...)
+	s.Roots = append(s.Roots, decl.Body)
+	s.Roots = append(s.Roots, sub.Roots...)
+	s.Sites = append(s.Sites, c.Pos())
+	return toks
 }
 
 func (s *fmtSide) field(arg ast.Expr, pos token.Pos) *fTok {
@@ -454,6 +723,10 @@ func renderGrammar(toks []*fTok) (string, []string) {
 				}
 				parts = append(parts, "{ "+pr(t.Body)+" }*"+b)
 			case "COND":
+				// a conditional whose only content is another conditional is their conjunction
+				for len(t.Body) == 1 && t.Body[0].Kind == "COND" && len(t.Else) == 0 && len(t.Body[0].Else) == 0 {
+					t = t.Body[0]
+				}
 				s := "[ " + pr(t.Body) + " ]?"
 				if len(t.Else) > 0 {
 					s += "else[ " + pr(t.Else) + " ]"
